@@ -25,6 +25,9 @@ CFG = dict(
         "Bridge.C06.snapshotIf_eq", "Bridge.C06.respCases_eq",
         "Bridge.C06.pstep_mark_fields", "Bridge.C06.pstep_reset_fields", "Bridge.C06.pstep_verdict_ok_fields",
         "Bridge.C06.pstep_release_live", "Bridge.C06.pstep_snap_block", "Bridge.C06.nextAnswer_eq",
+        # the body of handleResponse's loop (switch incl. fallthrough) = the model's per-verdict effects
+        "Bridge.C06.respBody_not_in_request", "Bridge.C06.respBody_in_request",
+        "Bridge.C06.pverdictFor_respond", "Bridge.C06.replyDrops_respond", "Bridge.C06.stepErrs_respond",
     ],
     # n = random wire cases per run; the harness adds n/10+200 steered windows, n/2 fine-grained random cases and
     # the exhaustive fine-grained enumeration (length <= 4 quick: 22 620 cases; <= 5 once per thorough run: 271 452)
@@ -58,12 +61,14 @@ CFG["manifest"] = dict(
          "of the Retry.Max+1 attempts is accepted (system-level theorem over partitions, cached coordinator, lookup failures, early loop exit). "
          "A system model (all partitions, broker cache, request under way) is proved to project onto partition runs, and its request blocks to "
          "be the partitions' newest commit-log entries. Tie: MarkOffset, ResetOffset, updateCommitted, NextOffset, AsyncClose, the releaseDue "
-         "expression, the `if pom.dirty {AddBlock…}` fragment and the case labels of handleResponse's error switch are re-translated from /repo "
-         "on every run and proved equal to the model's functions (bridge); everything else (loops over poms, maps, flushToBroker / Commit / Close "
-         "control flow, broker caching, error delivery) is tied by differential execution of the real offsetManager against the compiled model.",
+         "expression, the `if pom.dirty {AddBlock…}` fragment, the case labels of handleResponse's error switch AND the whole body of handleResponse's loop "
+         "(skip if not in the request, missing topic / missing entry, every switch clause incl. the fallthrough: which calls of updateCommitted, "
+         "releaseCoordinator, handleError happen) are re-translated from /repo on every run and proved equal to the model's functions (bridge); "
+         "everything else (the loops over poms themselves, maps, flushToBroker / Commit / Close control flow, lookup, error channel delivery) is "
+         "tied by differential execution of the real offsetManager against the compiled model.",
     note="Trusted: Lean kernel; translator tools/extract + GoSem.lean; harness/line protocol; sarama's MockBroker as transport of the scripted "
-         "coordinator. What each clause of handleResponse's switch DOES (which label list means commit / redispatch / tell user) is tied by "
-         "correspondence only (the switch contains a fallthrough the translator rejects); the labels themselves are bridged. Not covered: "
+         "coordinator. Opaque calls inside the translated fragments (updateCommitted, releaseCoordinator, handleError, AddBlock) are matched by their "
+         "literal statement text and represented by ghost variables. Not covered: "
          "ticker timing, several concurrent committers, fetchInitialOffset failures, real goroutine interleavings inside one visit loop "
          "(argued by commutation, exercised only at the granularity of whole visits).",
     technique="Lean 4 proof (invariants + induction over operation lists, projection of a system model onto partition runs) + regenerated "
